@@ -2,6 +2,7 @@ import Qv.Base.Text
 import Qv.Spec.Flat
 import Qv.Model.Dev
 import Qv.Model.Format
+import Qv.Model.Open
 import Driver.Pure
 /-
 `seq` mode of the driver: executes the `op` lines of a sequential case on the
@@ -207,6 +208,64 @@ def finalLines (st : SeqState) (k : Nat) : List String :=
   let (d', _) := if d.info.readOnly then (d, Outcome.ok ()) else flushMeta d
   [s!"{k} res ok"] ++ fileLines k d' ++ [s!"{k} flatall {flatAll st.flat 512}"] ++ stateLines k d'
 
+/-- inverse of `rleTokens` (`m` = mixed sentinel) -/
+def parseRle (s : String) : Array Nat := Id.run do
+  let mut out : Array Nat := #[]
+  for t in s.splitOn " " do
+    if t.isEmpty then continue
+    let (name, kind, n) :=
+      match t.splitOn "*" with
+      | [a, b] => (a, 1, nat! b)
+      | _ => match t.splitOn "+" with
+        | [a, b] => (a, 2, nat! b)
+        | _ => (t, 0, 1)
+    let base := if name == "z" then 0 else if name == "p" then poison else if name == "m" then mixedTok
+                else hex! (name.drop 1).toString
+    for i in [0:n] do
+      out := out.push (if kind == 2 then base + i else base)
+  return out
+
+def loadComp (lines : Array String) (spc : Nat) (which : String) : FMap (FMap Nat) :=
+  lines.foldl (fun acc l =>
+    match l.splitOn " " with
+    | [w, off, tok] =>
+      if w == which then
+        acc.set (nat! off) ((List.range spc).foldl (fun t k => t.set k (nat! tok + k)) (FMap.empty 0))
+      else acc
+    | _ => acc) (FMap.empty (FMap.empty 0))
+
+/-- a case over builder images: state from the image files and sidecars -/
+def initBuilt (dir : String) (h : CaseHdr) : IO (Outcome SeqState) := do
+  let p : Params := { bsBits := h.bsb, rbCache := h.rb, l2Cache := h.l2, readOnly := h.rdonly, backing := false }
+  let top ← IO.FS.readBinFile s!"{dir}/case{h.id}.img0"
+  let compLines ← IO.FS.lines s!"{dir}/case{h.id}.comp"
+  let flatLines ← IO.FS.lines s!"{dir}/case{h.id}.flat"
+  match Spec.parseHdr top with
+  | .error _ => return .err .invalid
+  | .ok th =>
+    let timg : Spec.Img := { b := top, h := th }
+    let mut back : Option Back := none
+    if h.img != "built" then
+      let bb ← IO.FS.readBinFile s!"{dir}/case{h.id}.img1"
+      match Spec.parseHdr bb with
+      | .error _ => return .err .invalid
+      | .ok bh =>
+        let bimg : Spec.Img := { b := bb, h := bh }
+        let bp : Params := { p with readOnly := true, backing := true }
+        match openImage bimg bp (loadComp compLines (2^bh.cb / 512) "back") none with
+        | .ok bd => back := some (backOf bd)
+        | .err e => return .err e
+        | .panic s => return .panic s
+    match openImage timg p (loadComp compLines (2^th.cb / 512) "top") back with
+    | .ok d =>
+      let content := parseRle (flatLines.getD 0 "")
+      let own := parseRle (flatLines.getD 1 "")
+      let sec := (List.range content.size).foldl (fun acc s => if content[s]! = 0 then acc else acc.set s content[s]!) (FMap.empty 0)
+      let ownm := (List.range own.size).foldl (fun acc g => if own[g]! = 0 then acc else acc.set g true) (FMap.empty false)
+      return .ok { dev := d, params := p, flat := { vsize := h.size, cs := 2^h.cb, sec := sec, own := ownm } }
+    | .err e => return .err e
+    | .panic s => return .panic s
+
 def initCase (h : CaseHdr) : Outcome SeqState :=
   let p : Params := { bsBits := h.bsb, rbCache := h.rb, l2Cache := h.l2, readOnly := h.rdonly, backing := false }
   match formatDev h.size h.cb h.ro (2^h.bsb) p with
@@ -216,7 +275,7 @@ def initCase (h : CaseHdr) : Outcome SeqState :=
   | .err e => .err e
   | .panic s => .panic s
 
-partial def runSeq (lines : Array String) (out : IO.FS.Stream) : IO Unit := do
+partial def runSeq (dir : String) (lines : Array String) (out : IO.FS.Stream) : IO Unit := do
   let mut st : Option SeqState := none
   let mut nops := 0
   for line in lines do
@@ -226,7 +285,8 @@ partial def runSeq (lines : Array String) (out : IO.FS.Stream) : IO Unit := do
       let h := parseCaseHdr line
       out.putStrLn s!"case {h.id}"
       nops := 0
-      match initCase h with
+      let init ← if h.img == "format" then pure (initCase h) else initBuilt dir h
+      match init with
       | .ok s => st := some s; out.putStrLn "open ok"
       | .err _ => st := none; out.putStrLn "open err"
       | .panic _ => st := none; out.putStrLn "open panic"
